@@ -60,6 +60,16 @@ def _build_runner_locked():
     shutil.copy(os.path.join(REPO, "Cargo.lock"), os.path.join(crate, "Cargo.lock"))
     with open(os.path.join(VERIF, "native/runner/src/main.rs")) as f:
         src = f.read().replace("REPO_SRC", os.path.join(REPO, "src"))
+    # the runner includes /repo's parser sources by path: make its own source change whenever they do, so that cargo
+    # rebuilds it whatever the files' timestamps say
+    import hashlib
+    h = hashlib.sha256()
+    for sub in ("parser", "config"):
+        for root, _d, files in sorted(os.walk(os.path.join(REPO, "src", sub))):
+            for fn in sorted(files):
+                with open(os.path.join(root, fn), "rb") as f:
+                    h.update(fn.encode() + b"\0" + f.read())
+    src = "// parser sources: %s\n" % h.hexdigest() + src
     # the grammar attribute is relative to the crate's src dir: mirror the parser dir there
     pdir = os.path.join(crate, "src", "parser")
     os.makedirs(pdir, exist_ok=True)
